@@ -5,26 +5,28 @@
 EXTENDS Hostile, TLC, Json, IOUtils
 TraceLog == ndJsonDeserialize(IOEnv.TRACE)
 OutFile  == IOEnv.OUT
-VARIABLES l, rej, cur, skip, verdict, nexec, nin, nbad, nhandled
-vars == <<l, rej, cur, skip, verdict, nexec, nin, nbad, nhandled>>
+VARIABLES l, rej, cur, skip, verdict, silent, nexec, nin, nbad, nhandled
+vars == <<l, rej, cur, skip, verdict, silent, nexec, nin, nbad, nhandled>>
 \* verdict: "none" outside a hostile window, else Verdict of the datagram being processed
 
 Why(e) ==
   CASE e.e = "H" -> IF verdict = "bad" THEN "C02:malformed-input-handed-to-an-application-handler" ELSE ""
-    [] e.e = "Out" -> IF verdict = "bad" /\ ~ReplyAllowedForMalformed(e.ty, e.code) THEN "C02:malformed-input-answered-with-something-other-than-reset-or-error" ELSE ""
+    [] e.e = "Out" -> IF silent THEN "C02:datagram-that-must-be-silently-ignored-was-answered"
+                      ELSE IF verdict = "bad" /\ ~ReplyAllowedForMalformed(e.ty, e.code) THEN "C02:malformed-input-answered-with-something-other-than-reset-or-error" ELSE ""
     [] e.e = "Canary" -> IF e.ok = 1 THEN "" ELSE "C02:endpoint-no-longer-answers-a-well-formed-request-correctly"
     [] e.e = "Hang" -> "C02:endpoint-never-became-quiet"
     [] e.e = "Crash" -> "C02:crash-abort-or-sanitizer-report"
     [] OTHER -> ""
-Init == /\ l = 1 /\ rej = << >> /\ cur = -1 /\ skip = TRUE /\ verdict = "none" /\ nexec = 0 /\ nin = 0 /\ nbad = 0 /\ nhandled = 0
+Init == /\ l = 1 /\ rej = << >> /\ cur = -1 /\ skip = TRUE /\ verdict = "none" /\ silent = FALSE /\ nexec = 0 /\ nin = 0 /\ nbad = 0 /\ nhandled = 0
 Consume ==
   /\ l <= Len(TraceLog)
   /\ LET e == TraceLog[l] IN
      IF e.e = "Reset"
-     THEN /\ cur' = e.id /\ skip' = FALSE /\ verdict' = "none" /\ nexec' = nexec + 1 /\ UNCHANGED <<rej, nin, nbad, nhandled>>
-     ELSE IF skip /\ e.e # "Crash" THEN UNCHANGED <<rej, cur, skip, verdict, nexec, nin, nbad, nhandled>>
+     THEN /\ cur' = e.id /\ skip' = FALSE /\ verdict' = "none" /\ silent' = FALSE /\ nexec' = nexec + 1 /\ UNCHANGED <<rej, nin, nbad, nhandled>>
+     ELSE IF skip /\ e.e # "Crash" THEN UNCHANGED <<rej, cur, skip, verdict, silent, nexec, nin, nbad, nhandled>>
      ELSE LET why == Why(e) IN
           /\ verdict' = IF e.e = "In" THEN Verdict(e.w) ELSE IF e.e \in {"Quiet", "Valid"} THEN "none" ELSE verdict
+          /\ silent' = IF e.e = "In" THEN SilentlyIgnored(e.w) ELSE IF e.e \in {"Quiet", "Valid"} THEN FALSE ELSE silent
           /\ rej' = IF why = "" THEN rej ELSE Append(rej, [id |-> cur, line |-> l, why |-> why])
           /\ skip' = (why # "")
           /\ nin' = nin + (IF e.e = "In" THEN 1 ELSE 0)
@@ -35,7 +37,7 @@ Consume ==
 Finish == /\ l = Len(TraceLog) + 1
           /\ JsonSerialize(OutFile, [rejected |-> rej, executions |-> nexec, discarded |-> 0, known |-> {}, lines |-> Len(TraceLog),
                                      inputs |-> nin, malformed |-> nbad, handled |-> nhandled])
-          /\ l' = l + 1 /\ UNCHANGED <<rej, cur, skip, verdict, nexec, nin, nbad, nhandled>>
+          /\ l' = l + 1 /\ UNCHANGED <<rej, cur, skip, verdict, silent, nexec, nin, nbad, nhandled>>
 Next == Consume \/ Finish
 Spec == Init /\ [][Next]_vars
 =============================================================================
